@@ -4,6 +4,7 @@ use crate::vm::continuation::Continuation;
 use crate::vm::gc;
 use crate::vm::gc::State;
 use crate::vm::lambda::Lambda;
+use crate::vm::opcode::OpCode;
 use crate::vm::vcell::VCell;
 use log::trace;
 use num::ToPrimitive;
@@ -470,9 +471,16 @@ impl Heap {
     ///
     /// Iterate the lambda byte code and mark any value that contains a reference type
     pub fn mark_lambda(&mut self, lambda: &Lambda) {
-        // Mark every bytecode cell
+        // Mark every bytecode cell, except the operand of a jump: that is an offset
+        // into the bytecode encoded as a Ptr, not a heap reference. Marking the cell
+        // with that index would retain garbage, and if the cell is free it would be
+        // flagged allocated while still on the free list and later be handed out twice.
+        let mut is_jump_target = false;
         for it in &lambda.bc {
-            self.mark_vcell(it)
+            if !is_jump_target {
+                self.mark_vcell(it);
+            }
+            is_jump_target = matches!(it, VCell::OpCode(OpCode::Jmp | OpCode::Jnt));
         }
 
         // Mark every argument (symbol)
